@@ -5,8 +5,13 @@ import TFV.Lemmas.TrigBound
 import TFV.Lemmas.PowiBound
 import TFV.Lemmas.PanicFree
 import TFV.Properties.C03b
+import TFV.Properties.C04b
 import TFV.Properties.C07
 import TFV.Properties.C16
+import TFV.Properties.C06
+import TFV.Properties.C12
+import TFV.Properties.C09
+import TFV.Lemmas.RemExact
 import TFV.Properties.C01d
 import TFV.Properties.C08
 import TFV.Properties.C12x
@@ -49,14 +54,14 @@ theorem scaled_le {a b : Int} {N D : ℕ} (hD : 0 < D) (h : |a - b| * (D : Int) 
   rw [← sub_div, abs_div, abs_div, abs_of_pos hU, div_mul_div_comm, div_le_div_iff₀ hU (mul_pos hDq hU)]
   nlinarith [abs_nonneg ((a : ℚ) - b), abs_nonneg (b : ℚ)]
 
-theorem hi_natAbs_lt {t : TwoFloat} (hv : t.Valid) (h : |val t| ≤ 2 ^ 10) : t.hi.toInt.natAbs < 2 ^ 2094 := by
-  have h1 : |t.V| ≤ (2 : Int) ^ (1074 + 10) := int_upper h
+theorem hi_natAbs_lt {t : TwoFloat} (hv : t.Valid) (h : |val t| ≤ 2 ^ 30) : t.hi.toInt.natAbs < 2 ^ 2094 := by
+  have h1 : |t.V| ≤ (2 : Int) ^ (1074 + 30) := int_upper h
   obtain ⟨b1, _⟩ := hi_bounds hv
   have h2 : |t.hi.toInt| < (2 : Int) ^ 2094 := by
-    have e : (2 : Int) ^ 2094 = 2 ^ 1010 * 2 ^ (1074 + 10) := by rw [← pow_add]
-    have p : (0 : Int) < 2 ^ (1074 + 10) := by positivity
+    have e : (2 : Int) ^ 2094 = 2 ^ 990 * 2 ^ (1074 + 30) := by rw [← pow_add]
+    have p : (0 : Int) < 2 ^ (1074 + 30) := by positivity
     rw [e]
-    generalize (2 : Int) ^ (1074 + 10) = W at *
+    generalize (2 : Int) ^ (1074 + 30) = W at *
     have : (2 : Int) ^ 1010 ≥ 4 := by norm_num
     nlinarith [abs_nonneg t.hi.toInt]
   have h3 : ((t.hi.toInt.natAbs : Nat) : Int) < ((2 ^ 2094 : Nat) : Int) := by
@@ -64,7 +69,7 @@ theorem hi_natAbs_lt {t : TwoFloat} (hv : t.Valid) (h : |val t| ≤ 2 ^ 10) : t.
   exact_mod_cast h3
 
 theorem add_tt_val {x y : TwoFloat} (hvx : x.Valid) (hwx : x.WF) (hvy : y.Valid) (hwy : y.WF)
-    (hx : |val x| ≤ 2 ^ 10) (hy : |val y| ≤ 2 ^ 10) :
+    (hx : |val x| ≤ 2 ^ 30) (hy : |val y| ≤ 2 ^ 30) :
     (arithmetic.impl_Add_rTwoFloat_for_rTwoFloat.add x y).Valid ∧
     (arithmetic.impl_Add_rTwoFloat_for_rTwoFloat.add x y).WF ∧
     |val (arithmetic.impl_Add_rTwoFloat_for_rTwoFloat.add x y) - (val x + val y)| ≤ cA * |val x + val y| := by
@@ -78,7 +83,7 @@ theorem add_tt_val {x y : TwoFloat} (hvx : x.Valid) (hwx : x.WF) (hvy : y.Valid)
   norm_num
 
 theorem sub_tt_val {x y : TwoFloat} (hvx : x.Valid) (hwx : x.WF) (hvy : y.Valid) (hwy : y.WF)
-    (hx : |val x| ≤ 2 ^ 10) (hy : |val y| ≤ 2 ^ 10) :
+    (hx : |val x| ≤ 2 ^ 30) (hy : |val y| ≤ 2 ^ 30) :
     (arithmetic.impl_Sub_rTwoFloat_for_rTwoFloat.sub x y).Valid ∧
     (arithmetic.impl_Sub_rTwoFloat_for_rTwoFloat.sub x y).WF ∧
     |val (arithmetic.impl_Sub_rTwoFloat_for_rTwoFloat.sub x y) - (val x - val y)| ≤ cA * |val x - val y| := by
@@ -92,7 +97,7 @@ theorem sub_tt_val {x y : TwoFloat} (hvx : x.Valid) (hwx : x.WF) (hvy : y.Valid)
   norm_num
 
 theorem add_tf_val {x : TwoFloat} {f : F64} (hvx : x.Valid) (hwx : x.WF) (hff : f.is_finite = true) (hwf : f.WF)
-    (hx : |val x| ≤ 2 ^ 10) (hf : f.toInt.natAbs < 2 ^ 2095) :
+    (hx : |val x| ≤ 2 ^ 30) (hf : f.toInt.natAbs < 2 ^ 2095) :
     (arithmetic.impl_Add_rf64_for_rTwoFloat.add x f).Valid ∧
     (arithmetic.impl_Add_rf64_for_rTwoFloat.add x f).WF ∧
     |val (arithmetic.impl_Add_rf64_for_rTwoFloat.add x f) - (val x + fval f)| ≤ 1 / 2 ^ 105 * |val x + fval f| := by
@@ -688,5 +693,616 @@ theorem reduce_arith {xv d P k m r : ℚ} (hP1 : 157 / 100 ≤ P) (hP2 : P ≤ 1
   rw [sub_add_cancel] at this
   have : (1 : ℚ) / 2 ^ 82 + (1 / 2 ^ 82 + 7854 / 10000) ≤ 393 / 500 := by norm_num
   linarith
+
+/-- facts about the constants, evaluated by the kernel -/
+theorem P_facts : consts.FRAC_PI_2.Valid ∧ consts.FRAC_PI_2.WF ∧
+    (157 : ℚ) / 100 ≤ val consts.FRAC_PI_2 ∧ val consts.FRAC_PI_2 ≤ 15708 / 10000 ∧
+    2 ^ 624 ≤ consts.FRAC_PI_2.hi.toInt.natAbs ∧ consts.FRAC_PI_2.hi.toInt.natAbs ≤ 2 ^ 1524 ∧
+    val consts.FRAC_PI_4 * 2 = val consts.FRAC_PI_2 := by decide +kernel
+
+theorem hi_range {t : TwoFloat} (hv : t.Valid) (h1 : 1 / 2 ≤ |val t|) (h2 : |val t| ≤ 2 ^ 20) :
+    2 ^ 624 ≤ t.hi.toInt.natAbs ∧ t.hi.toInt.natAbs ≤ 2 ^ 1524 := by
+  have a1 : (2 : Int) ^ (1074 - 1) ≤ |t.V| := int_lower (k := 1) (by norm_num) (by simpa using h1)
+  have a2 : |t.V| ≤ (2 : Int) ^ (1074 + 20) := int_upper h2
+  obtain ⟨b1, b2⟩ := hi_bounds hv
+  have c1 : (2 : Int) ^ 624 ≤ |t.hi.toInt| := by
+    have e : (2 : Int) ^ (1074 - 1) = 2 ^ 449 * 2 ^ 624 := by rw [← pow_add]
+    rw [e] at a1
+    have p : (0 : Int) < 2 ^ 624 := by positivity
+    generalize (2 : Int) ^ 624 = W at *
+    have : (2 : Int) ^ 449 ≥ 4 := by norm_num
+    nlinarith [abs_nonneg t.hi.toInt]
+  have c2 : |t.hi.toInt| ≤ (2 : Int) ^ 1524 := by
+    have e : (2 : Int) ^ 1524 = 2 ^ 430 * 2 ^ (1074 + 20) := by rw [← pow_add]
+    rw [e]
+    have p : (0 : Int) < 2 ^ (1074 + 20) := by positivity
+    generalize (2 : Int) ^ (1074 + 20) = W at *
+    have : (2 : Int) ^ 430 ≥ 4 := by norm_num
+    nlinarith [abs_nonneg t.hi.toInt]
+  rw [Int.abs_eq_natAbs] at c1 c2
+  exact ⟨by exact_mod_cast c1, by exact_mod_cast c2⟩
+
+/-- `TwoFloat / TwoFloat`, rational form -/
+theorem div_tt_val {a b : TwoFloat} (ha : a.Valid) (hwa : a.WF) (hb : b.Valid) (hwb : b.WF)
+    (hA : 2 ^ 624 ≤ a.hi.toInt.natAbs ∧ a.hi.toInt.natAbs ≤ 2 ^ 1524)
+    (hB : 2 ^ 624 ≤ b.hi.toInt.natAbs ∧ b.hi.toInt.natAbs ≤ 2 ^ 1524) :
+    (arithmetic.impl_Div_rTwoFloat_for_rTwoFloat.div a b).Valid ∧
+    (arithmetic.impl_Div_rTwoFloat_for_rTwoFloat.div a b).WF ∧
+    |val a - val (arithmetic.impl_Div_rTwoFloat_for_rTwoFloat.div a b) * val b| ≤ 1 / 2 ^ 102 * |val a| := by
+  have h12 : (arithmetic.impl_Div_rTwoFloat_for_rTwoFloat.div a b).Valid ∧
+      (arithmetic.impl_Div_rTwoFloat_for_rTwoFloat.div a b).WF :=
+    C01d.div_tt_valid a b ha hwa hb hwb hA.1 hA.2 hB.1 hB.2
+  have h3 : 2 ^ 102 * |a.V * (unit : Int) - (arithmetic.impl_Div_rTwoFloat_for_rTwoFloat.div a b).V * b.V|
+      ≤ |a.V * (unit : Int)| := C01d.div_tt_bound a b ha hwa hb hwb hA.1 hA.2 hB.1 hB.2
+  refine ⟨h12.1, h12.2, ?_⟩
+  rw [unit_cast_eq] at h3
+  generalize arithmetic.impl_Div_rTwoFloat_for_rTwoFloat.div a b = d at *
+  have hq : (2 : ℚ) ^ 102 * |(a.V : ℚ) * 2 ^ 1074 - d.V * b.V| ≤ |(a.V : ℚ) * 2 ^ 1074| := by exact_mod_cast h3
+  unfold val
+  have hU : (0 : ℚ) < 2 ^ 1074 := by positivity
+  generalize (2 : ℚ) ^ 1074 = W at *
+  have e1 : (a.V : ℚ) / W - d.V / W * (b.V / W) = ((a.V : ℚ) * W - d.V * b.V) / (W * W) := by field_simp
+  have e2 : (a.V : ℚ) / W = ((a.V : ℚ) * W) / (W * W) := by field_simp
+  rw [e1, e2, abs_div, abs_div, abs_of_pos (mul_pos hU hU), ← mul_div_assoc,
+    div_le_div_iff_of_pos_right (mul_pos hU hU), div_mul_eq_mul_div, one_mul, le_div_iff₀ (by positivity)]
+  linarith
+
+/-- `TwoFloat * TwoFloat` with the `7u²` bound on the wide range (allows a zero factor), rational form -/
+theorem mul_tt_val7 {x y : TwoFloat} (hvx : x.Valid) (hwx : x.WF) (hvy : y.Valid) (hwy : y.WF)
+    (hr : x.hi.toInt * y.hi.toInt = 0 ∨
+      ((2 : Int) ^ 1188 ≤ |x.hi.toInt * y.hi.toInt| ∧ |x.hi.toInt * y.hi.toInt| < (2 : Int) ^ 3169)) :
+    (arithmetic.impl_Mul_rTwoFloat_for_rTwoFloat.mul x y).Valid ∧
+    (arithmetic.impl_Mul_rTwoFloat_for_rTwoFloat.mul x y).WF ∧
+    |val (arithmetic.impl_Mul_rTwoFloat_for_rTwoFloat.mul x y) - val x * val y| ≤ 7 / 2 ^ 106 * |val x * val y| := by
+  obtain ⟨hV, hb⟩ := C04b.mul_tt_bound_7u2_partial hvx hwx hvy hwy hr
+  refine ⟨hV, mul_tt_WF x y, ?_⟩
+  have hb' : |(arithmetic.impl_Mul_rTwoFloat_for_rTwoFloat.mul x y).V * (unit : Int) - x.V * y.V| * 2 ^ 106
+      ≤ 7 * |x.V * y.V| := hb
+  generalize arithmetic.impl_Mul_rTwoFloat_for_rTwoFloat.mul x y = p at *
+  rw [unit_cast_eq] at hb'
+  have hq : |(p.V : ℚ) * 2 ^ 1074 - x.V * y.V| * 2 ^ 106 ≤ 7 * |(x.V : ℚ) * y.V| := by exact_mod_cast hb'
+  unfold val
+  have hU : (0 : ℚ) < 2 ^ 1074 := by positivity
+  generalize (2 : ℚ) ^ 1074 = W at *
+  have e1 : (p.V : ℚ) / W - x.V / W * (y.V / W) = ((p.V : ℚ) * W - x.V * y.V) / (W * W) := by field_simp
+  have e2 : (x.V : ℚ) / W * (y.V / W) = ((x.V : ℚ) * y.V) / (W * W) := by field_simp
+  rw [e1, e2, abs_div, abs_div, abs_of_pos (mul_pos hU hU), ← mul_div_assoc,
+    div_le_div_iff_of_pos_right (mul_pos hU hU), div_mul_eq_mul_div, le_div_iff₀ (by positivity)]
+  exact hq
+
+theorem reduce_k {xv d P k : ℚ} (hP1 : 157 / 100 ≤ P) (hx : |xv| ≤ 2 ^ 20)
+    (hd : |xv - d * P| ≤ 1 / 2 ^ 102 * |xv|) (hk : |d - k| ≤ 1 / 2) : |k| ≤ 2 ^ 20 := by
+  have hP0 : 0 < P := by linarith
+  have e1 : |xv - d * P| ≤ 1 / 2 ^ 82 := by
+    have : 1 / 2 ^ 102 * |xv| ≤ 1 / 2 ^ 102 * 2 ^ 20 := mul_le_mul_of_nonneg_left hx (by positivity)
+    refine le_trans hd (le_trans this ?_)
+    norm_num
+  have hdP : |d| * P ≤ 2 ^ 20 + 1 := by
+    have := abs_add_le (d * P - xv) xv
+    rw [sub_add_cancel, abs_mul, abs_of_pos hP0, abs_sub_comm] at this
+    have : (1 : ℚ) / 2 ^ 82 ≤ 1 := by norm_num
+    linarith
+  have hd' : |d| ≤ 2 ^ 20 - 1 := by
+    have : |d| * (157 / 100) ≤ |d| * P := mul_le_mul_of_nonneg_left hP1 (abs_nonneg _)
+    norm_num at hdP this ⊢
+    linarith
+  have := abs_add_le (k - d) d
+  rw [sub_add_cancel, abs_sub_comm] at this
+  linarith
+
+/-- `round` in rational terms: an integer within 1/2 -/
+theorem round_val {d : TwoFloat} (hv : d.Valid) (hw : d.WF) :
+    ∃ k : ℤ, (TwoFloat.round d).V = k * 2 ^ 1074 ∧ (TwoFloat.round d).Valid ∧ (TwoFloat.round d).WF ∧
+      |val d - (k : ℚ)| ≤ 1 / 2 := by
+  obtain ⟨h1, h2⟩ := C08.round_exact hv hw
+  obtain ⟨⟨k, hk⟩, h3, h4⟩ := C08.roundV_spec d.V
+  refine ⟨k, by rw [h1, hk, C08.U_eq]; ring, h2, C08.round_WF hw, ?_⟩
+  have hU := C08.U_pos
+  have hz : |2 * d.V - 2 * (C08.U * k)| ≤ C08.U := by
+    rw [abs_le]
+    rcases le_total 0 d.V with h | h
+    · have := h3 h; rw [hk] at this; constructor <;> linarith
+    · have := h4 h; rw [hk] at this; constructor <;> linarith
+  rw [C08.U_eq] at hz
+  have hq : |2 * (d.V : ℚ) - 2 * (2 ^ 1074 * k)| ≤ 2 ^ 1074 := by exact_mod_cast hz
+  unfold val
+  have hW : (0 : ℚ) < 2 ^ 1074 := by positivity
+  generalize (2 : ℚ) ^ 1074 = W at *
+  have e : (d.V : ℚ) / W - k = (2 * (d.V : ℚ) - 2 * (W * k)) / (2 * W) := by field_simp
+  rw [e, abs_div, abs_of_pos (by positivity : (0 : ℚ) < 2 * W), div_le_iff₀ (by positivity)]
+  linarith
+
+/-- **the argument reduction**: for `π/4 ≤ |x| ≤ 2^20` (with the double-double `π/4`), the quotient is an integer `k`
+with `|k| ≤ 2^20`, stored exactly, and the remainder is within `2^-82` of `x − k·P` (`P` the double-double `π/2`)
+and at most `0.786` in magnitude -/
+theorem reduction {x : TwoFloat} (hv : x.Valid) (hw : x.WF)
+    (hlo : val consts.FRAC_PI_4 ≤ |val x|) (hhi : |val x| ≤ 2 ^ 20) :
+    ∃ k : ℤ, |k| ≤ 2 ^ 20 ∧
+      (TwoFloat.round (arithmetic.impl_Div_rTwoFloat_for_rTwoFloat.div x consts.FRAC_PI_2)).IsV (k * (unit : ℤ)) 0 ∧
+      (arithmetic.impl_Sub_rTwoFloat_for_rTwoFloat.sub x (arithmetic.impl_Mul_rTwoFloat_for_rTwoFloat.mul
+        (TwoFloat.round (arithmetic.impl_Div_rTwoFloat_for_rTwoFloat.div x consts.FRAC_PI_2)) consts.FRAC_PI_2)).Valid ∧
+      (arithmetic.impl_Sub_rTwoFloat_for_rTwoFloat.sub x (arithmetic.impl_Mul_rTwoFloat_for_rTwoFloat.mul
+        (TwoFloat.round (arithmetic.impl_Div_rTwoFloat_for_rTwoFloat.div x consts.FRAC_PI_2)) consts.FRAC_PI_2)).WF ∧
+      |val (arithmetic.impl_Sub_rTwoFloat_for_rTwoFloat.sub x (arithmetic.impl_Mul_rTwoFloat_for_rTwoFloat.mul
+        (TwoFloat.round (arithmetic.impl_Div_rTwoFloat_for_rTwoFloat.div x consts.FRAC_PI_2)) consts.FRAC_PI_2))
+        - (val x - k * val consts.FRAC_PI_2)| ≤ 1 / 2 ^ 82 ∧
+      |val (arithmetic.impl_Sub_rTwoFloat_for_rTwoFloat.sub x (arithmetic.impl_Mul_rTwoFloat_for_rTwoFloat.mul
+        (TwoFloat.round (arithmetic.impl_Div_rTwoFloat_for_rTwoFloat.div x consts.FRAC_PI_2)) consts.FRAC_PI_2))|
+        ≤ 393 / 500 := by
+  obtain ⟨hvP, hwP, hP1, hP2, hPh1, hPh2, hP4⟩ := P_facts
+  have hx12 : 1 / 2 ≤ |val x| := by
+    have : val consts.FRAC_PI_4 = val consts.FRAC_PI_2 / 2 := by rw [← hP4]; ring
+    rw [this] at hlo
+    linarith
+  obtain ⟨hvd, hwd, hed⟩ := div_tt_val hv hw hvP hwP (hi_range hv hx12 hhi) ⟨hPh1, hPh2⟩
+  set d := arithmetic.impl_Div_rTwoFloat_for_rTwoFloat.div x consts.FRAC_PI_2 with hd
+  obtain ⟨k, hqV, hvq, hwq, hek⟩ := round_val hvd hwd
+  set q := TwoFloat.round d with hq
+  have hk20 : |(k : ℚ)| ≤ 2 ^ 20 := reduce_k hP1 hhi hed hek
+  have hk20i : |k| ≤ 2 ^ 20 := by exact_mod_cast hk20
+  have hk53 : |k| ≤ 2 ^ 53 := le_trans hk20i (by norm_num)
+  have hqV' : q.V = k * (unit : ℤ) := by rw [hqV, unit_cast_eq]
+  have hqI : q.IsV (k * (unit : ℤ)) 0 := by
+    have := Valid.isV_of_repI hvq (by rw [hqV']; exact repI_int hk53)
+    rwa [hqV'] at this
+  have hqval : val q = (k : ℚ) := by
+    unfold val
+    rw [hqV, Int.cast_mul, Int.cast_pow, Int.cast_ofNat, mul_div_assoc, div_self (by positivity), mul_one]
+  -- the product q * P
+  have hr : q.hi.toInt * consts.FRAC_PI_2.hi.toInt = 0 ∨
+      ((2 : Int) ^ 1188 ≤ |q.hi.toInt * consts.FRAC_PI_2.hi.toInt| ∧
+        |q.hi.toInt * consts.FRAC_PI_2.hi.toInt| < (2 : Int) ^ 3169) := by
+    rw [hqI.1.2, unit_cast_eq]
+    by_cases h0 : k = 0
+    · left; rw [h0]; ring
+    · right
+      have hk1 : 1 ≤ |k| := Int.one_le_abs h0
+      have p1 : (2 : Int) ^ 624 ≤ |consts.FRAC_PI_2.hi.toInt| := by
+        rw [Int.abs_eq_natAbs]; exact_mod_cast hPh1
+      have p2 : |consts.FRAC_PI_2.hi.toInt| ≤ (2 : Int) ^ 1524 := by
+        rw [Int.abs_eq_natAbs]; exact_mod_cast hPh2
+      rw [abs_mul, abs_mul, abs_of_pos (by positivity : (0 : Int) < 2 ^ 1074)]
+      constructor
+      · have e : (2 : Int) ^ 1188 = 1 * 2 ^ 564 * 2 ^ 624 := by rw [one_mul, ← pow_add]
+        rw [e]
+        refine mul_le_mul (mul_le_mul hk1 (pow_le_pow_right₀ (by norm_num) (by norm_num)) (by positivity)
+          (abs_nonneg _)) p1 (by positivity) (by positivity)
+      · have e : (2 : Int) ^ 3169 = 2 ^ 571 * 2 ^ 1074 * 2 ^ 1524 := by rw [← pow_add, ← pow_add]
+        rw [e]
+        have h1 : |k| * 2 ^ 1074 * |consts.FRAC_PI_2.hi.toInt| ≤ 2 ^ 20 * 2 ^ 1074 * 2 ^ 1524 :=
+          mul_le_mul (mul_le_mul_of_nonneg_right hk20i (by positivity)) p2 (abs_nonneg _) (by positivity)
+        refine lt_of_le_of_lt h1 ?_
+        refine mul_lt_mul_of_pos_right (mul_lt_mul_of_pos_right ?_ (by positivity)) (by positivity)
+        exact pow_lt_pow_right₀ (by norm_num) (by norm_num)
+  obtain ⟨hvm, hwm, hem⟩ := mul_tt_val7 hvq hwq hvP hwP hr
+  rw [hqval] at hem
+  set m := arithmetic.impl_Mul_rTwoFloat_for_rTwoFloat.mul q consts.FRAC_PI_2 with hm
+  -- first the magnitude of m (needed for the subtraction), then the subtraction
+  have hm22 : |val m| ≤ 2 ^ 22 :=
+    (reduce_arith (r := val x - val m) hP1 hP2 hhi hed hek hem (by
+      rw [sub_self, abs_zero]; exact mul_nonneg cA_pos.le (abs_nonneg _))).2.1
+  obtain ⟨hvr, hwr, her⟩ := sub_tt_val hv hw hvm hwm (le_trans hhi (by norm_num)) (le_trans hm22 (by norm_num))
+  obtain ⟨_, _, h3, h4⟩ := reduce_arith hP1 hP2 hhi hed hek hem her
+  exact ⟨k, hk20i, hqI, hvr, hwr, h3, h4⟩
+
+/-! ## 6. the quadrant: `q % 4.0` and its conversion to `i8` -/
+
+theorem four_facts : (f64lit 0x4010000000000000).is_finite = true ∧ (f64lit 0x4010000000000000).WF ∧
+    (f64lit 0x4010000000000000).toInt = 4 * (unit : ℤ) := by decide +kernel
+
+theorem repI_small {k : ℤ} (h : |k| ≤ 2 ^ 22) : RepI k := by
+  unfold RepI Rep
+  left
+  have h1 : |k| < 2 ^ 53 := lt_of_le_of_lt h (by norm_num)
+  have h2 : ((k.natAbs : ℕ) : ℤ) < ((2 ^ 53 : ℕ) : ℤ) := by rw [Int.natCast_natAbs]; exact_mod_cast h1
+  exact_mod_cast h2
+
+/-- `q % 4.0` for an integer-valued `q = (k, 0)`, `|k| ≤ 2^20`: exactly `(k tmod 4, 0)` -/
+theorem rem_four {q : TwoFloat} {k : ℤ} (hq : q.IsV (k * (unit : ℤ)) 0) (hk : |k| ≤ 2 ^ 20) :
+    (arithmetic.impl_Rem_f64_for_TwoFloat.rem q (f64lit 0x4010000000000000)).IsV (k.tmod 4 * (unit : ℤ)) 0 := by
+  have hf : IsVal (f64lit 0x4010000000000000) (4 * (unit : ℤ)) := ⟨four_facts.1, four_facts.2.2⟩
+  have hUi := unit_pos_int
+  have hk53 : |k| ≤ 2 ^ 53 := le_trans hk (by norm_num)
+  have hwq : q.WF := hq.int_WF hk53
+  have e4 : (unit : ℤ) = 4 * 2 ^ 1072 := by rw [unit_cast_eq]; norm_num
+  have hmax : (2 : ℤ) ^ 2097 ≤ (maxFin : ℤ) := two_pow_2097_le_maxFin_int
+  -- (i) q / 4.0
+  have hHr : RepI (k * 2 ^ 1072) := repI_mul_pow2_iff.2 (repI_small (le_trans hk (by norm_num)))
+  have hHm : |k * 2 ^ 1072| ≤ (maxFin : ℤ) := by
+    rw [abs_mul, abs_of_pos (by positivity : (0 : ℤ) < 2 ^ 1072)]
+    have : |k| * 2 ^ 1072 ≤ 2 ^ 20 * 2 ^ 1072 := mul_le_mul_of_nonneg_right hk (by positivity)
+    have e : (2 : ℤ) ^ 20 * 2 ^ 1072 ≤ 2 ^ 2097 := by
+      rw [← pow_add]; exact pow_le_pow_right₀ (by norm_num) (by norm_num)
+    linarith
+  have hd : (arithmetic.impl_Div_rf64_for_rTwoFloat.div q (f64lit 0x4010000000000000)).IsV (k * 2 ^ 1072) 0 :=
+    div_tf_isV_fixed hq hf hwq (by omega) (by rw [e4]; ring) (by ring)
+      ⟨hHr, hHm, repI_zero, abs_zero_le_maxFin, by rw [add_zero, rnI_of_repI hHr]⟩
+  have hwd := div_tf_WF q (f64lit 0x4010000000000000)
+  have hvd : (arithmetic.impl_Div_rf64_for_rTwoFloat.div q (f64lit 0x4010000000000000)).Valid :=
+    hd.valid hwd (by rw [add_zero, rnI_of_repI hHr])
+  -- (ii) trunc
+  obtain ⟨ht1, ht2⟩ := C08.trunc_exact hvd hwd
+  have hwt := C08.trunc_WF hwd
+  set t := TwoFloat.trunc (arithmetic.impl_Div_rf64_for_rTwoFloat.div q (f64lit 0x4010000000000000)) with htdef
+  have hj : |k.tdiv 4| ≤ 2 ^ 20 := by
+    have : |k.tdiv 4| ≤ |k| := by
+      rw [Int.abs_eq_natAbs, Int.abs_eq_natAbs, Int.natAbs_tdiv]
+      exact_mod_cast Nat.div_le_self _ _
+    linarith
+  have htV : t.V = k.tdiv 4 * (unit : ℤ) := by
+    rw [ht1, hd.V_eq, add_zero]
+    unfold C08.truncV
+    rw [C08.U_eq, show (2 : ℤ) ^ 1074 = 4 * 2 ^ 1072 by norm_num,
+      Int.mul_tdiv_mul_of_pos_left k 4 (by positivity : (0 : ℤ) < 2 ^ 1072), e4]
+  have htI : t.IsV (k.tdiv 4 * (unit : ℤ)) 0 := by
+    have := Valid.isV_of_repI ht2 (by rw [htV]; exact repI_int (le_trans hj (by norm_num)))
+    rwa [htV] at this
+  -- (iii) trunc * 4.0
+  have h4j : |4 * k.tdiv 4| ≤ 2 ^ 53 := by
+    rw [abs_mul]; norm_num
+    have : (4 : ℤ) * 2 ^ 20 ≤ 2 ^ 53 := by norm_num
+    linarith
+  have hPr : RepI (4 * k.tdiv 4 * (unit : ℤ)) := repI_int h4j
+  have hp : (arithmetic.impl_Mul_rf64_for_rTwoFloat.mul t (f64lit 0x4010000000000000)).IsV
+      (4 * k.tdiv 4 * (unit : ℤ)) 0 :=
+    mul_tf_isV_fixed htI hf (by ring) (by ring)
+      ⟨hPr, abs_int_le h4j, repI_zero, abs_zero_le_maxFin, by rw [add_zero, rnI_of_repI hPr]⟩
+  have hwp := mul_tf_WF t (f64lit 0x4010000000000000)
+  -- (iv) q - that
+  have ev : k * (unit : ℤ) - 4 * k.tdiv 4 * (unit : ℤ) = k.tmod 4 * (unit : ℤ) := by
+    rw [Int.tmod_def k 4]; ring
+  have hv4 : |k.tmod 4| ≤ 2 ^ 53 := by
+    have h1 := Int.tmod_lt_of_pos k (by norm_num : (0 : ℤ) < 4)
+    have h2 := Int.lt_tmod_of_pos k (by norm_num : (0 : ℤ) < 4)
+    rw [abs_le]; constructor <;> omega
+  have hRr : RepI (k * (unit : ℤ) - 4 * k.tdiv 4 * (unit : ℤ)) := by rw [ev]; exact repI_int hv4
+  have hs := sub_tt_isV_fixed hq hp hwq hwp
+    ⟨hRr, by rw [ev]; exact abs_int_le hv4, by simpa using repI_zero, by simp,
+      by rw [sub_self, add_zero, rnI_of_repI hRr]⟩
+  rw [ev, sub_self] at hs
+  exact hs
+
+theorem i8_ge (a b : I8) : (a >=. b) = decide (b.v ≤ a.v) := by
+  obtain ⟨a⟩ := a; obtain ⟨b⟩ := b
+  show (match (some (if a < b then ROrdering.Less else if a = b then .Equal else .Greater)) with
+    | some .Greater => true | some .Equal => true | _ => false) = _
+  by_cases h1 : a < b
+  · simp [h1]
+  · by_cases h2 : a = b
+    · simp [h2]
+    · simp [h1, h2]; omega
+
+theorem i8_eq (a b : I8) : (a ==. b) = decide (a.v = b.v) := rfl
+
+/-- the conversion of `q % 4.0` to `i8` succeeds with the truncated remainder -/
+theorem try_from_rem_four {q : TwoFloat} {k : ℤ} (hq : q.IsV (k * (unit : ℤ)) 0) (hk : |k| ≤ 2 ^ 20) :
+    convert.impl_TryFrom_TwoFloat_for_i8.try_from
+      (arithmetic.impl_Rem_f64_for_TwoFloat.rem q (f64lit 0x4010000000000000)) = Except.ok (⟨k.tmod 4⟩ : I8) := by
+  have hr := rem_four hq hk
+  have h1 := Int.tmod_lt_of_pos k (by norm_num : (0 : ℤ) < 4)
+  have h2 := Int.lt_tmod_of_pos k (by norm_num : (0 : ℤ) < 4)
+  have hv4 : |k.tmod 4| ≤ 2 ^ 53 := by rw [abs_le]; constructor <;> omega
+  rw [C09.try_from_i8_ok_iff _ (hr.int_valid hv4) (hr.int_WF hv4)]
+  constructor
+  · rw [hr.V_eq, add_zero]
+    show k.tmod 4 = (k.tmod 4 * (unit : ℤ)).tdiv (unit : ℤ)
+    rw [Int.mul_tdiv_cancel _ (ne_of_gt unit_pos_int)]
+  · show IntN.fits true 8 (k.tmod 4) = true
+    unfold IntN.fits IntN.minV IntN.maxV
+    simp only [if_true]
+    have : ((2 ^ (8 - 1) : Nat) : Int) = 128 := by norm_num
+    rw [this]
+    simp only [Bool.and_eq_true, decide_eq_true_eq]
+    omega
+
+/-- **the reduction branch of `quadrant`**: remainder and `k mod 4` -/
+theorem quadrant_large {x : TwoFloat}
+    (h : ROrd.isLt (base.impl_PartialOrd_TwoFloat_for_TwoFloat.partial_cmp (TwoFloat.abs x) consts.FRAC_PI_4) = false)
+    {k : ℤ} (hq : (TwoFloat.round (arithmetic.impl_Div_rTwoFloat_for_rTwoFloat.div x consts.FRAC_PI_2)).IsV
+      (k * (unit : ℤ)) 0) (hk : |k| ≤ 2 ^ 20) :
+    trigonometry.quadrant x =
+      (arithmetic.impl_Sub_rTwoFloat_for_rTwoFloat.sub x (arithmetic.impl_Mul_rTwoFloat_for_rTwoFloat.mul
+        (TwoFloat.round (arithmetic.impl_Div_rTwoFloat_for_rTwoFloat.div x consts.FRAC_PI_2)) consts.FRAC_PI_2),
+       (⟨k % 4⟩ : I8)) := by
+  have htf := try_from_rem_four hq hk
+  have h1 := Int.tmod_lt_of_pos k (by norm_num : (0 : ℤ) < 4)
+  have h2 := Int.lt_tmod_of_pos k (by norm_num : (0 : ℤ) < 4)
+  have h3 : k.tmod 4 = k - 4 * k.tdiv 4 := Int.tmod_def k 4
+  have htf' : convert.impl_TryFrom_TwoFloat_for_i8.try_from
+      (arithmetic.impl_Rem_f64_for_TwoFloat.rem
+        (TwoFloat.round (arithmetic.impl_Div_TwoFloat_for_TwoFloat.div x consts.FRAC_PI_2))
+        (f64lit 0x4010000000000000)) = Except.ok (⟨k.tmod 4⟩ : I8) := htf
+  unfold trigonometry.quadrant
+  simp only [h, Bool.false_eq_true, if_false, htf']
+  simp only [i8_ge]
+  have e0 : ((0 : I8)).v = 0 := rfl
+  have e4 : ((-4 : I8)).v = -4 := rfl
+  by_cases h0 : (0 : ℤ) ≤ k.tmod 4
+  · have e : k.tmod 4 = k % 4 := by omega
+    rw [e] at h0
+    simp only [e0, e, h0, decide_true, if_true]
+    rfl
+  · have e : 4 + k.tmod 4 = k % 4 := by omega
+    have h4 : (-4 : ℤ) ≤ k.tmod 4 := by omega
+    simp only [e0, e4, h0, h4, decide_false, decide_true, Bool.false_eq_true, if_false, if_true]
+    show (_, (⟨4 + k.tmod 4⟩ : I8)) = _
+    rw [e]
+    rfl
+
+/-! ## 7. assembly -/
+
+/-- the reduced argument is either exactly zero or not tiny.
+(OPEN: the range `0 < |r| < 2^-400` needs an error analysis of `TwoFloat * TwoFloat` in the underflow range,
+which the operator library does not provide.) -/
+def Good (r : TwoFloat) : Prop := 1 / 2 ^ 400 ≤ |val r| ∨ r.V = 0
+
+theorem zero_words {r : TwoFloat} (hv : r.Valid) (h0 : r.V = 0) :
+    ∃ s u : Bool, r = ⟨F64.fin s 0, F64.fin u 0⟩ := by
+  obtain ⟨⟨f1, z1⟩, ⟨f2, z2⟩⟩ := hv.words_zero h0
+  rcases r with ⟨hi, lo⟩
+  obtain ⟨s, a, rfl⟩ := F64.is_finite_iff.mp f1
+  obtain ⟨u, b, rfl⟩ := F64.is_finite_iff.mp f2
+  have ha : a = 0 := TwoFloat.toInt_eq_zero_iff.1 z1
+  have hb : b = 0 := TwoFloat.toInt_eq_zero_iff.1 z2
+  subst ha; subst hb
+  exact ⟨s, u, rfl⟩
+
+theorem restricted_zero {r : TwoFloat} (hv : r.Valid) (h0 : r.V = 0) :
+    (trigonometry.restricted_sin r).Valid ∧ (trigonometry.restricted_cos r).Valid ∧
+    val (trigonometry.restricted_sin r) = 0 ∧ val (trigonometry.restricted_cos r) = 1 := by
+  obtain ⟨s, u, rfl⟩ := zero_words hv h0
+  cases s <;> cases u <;> decide +kernel
+
+theorem val_zero_of_V {r : TwoFloat} (h0 : r.V = 0) : val r = 0 := by unfold val; rw [h0]; simp
+
+/-- `restricted_sin` on a good argument `|r| ≤ 0.786` -/
+theorem restricted_sin_good {r : TwoFloat} (hv : r.Valid) (hw : r.WF) (hg : Good r) (hhi : |val r| ≤ 393 / 500) :
+    (trigonometry.restricted_sin r).Valid ∧
+    |rval (trigonometry.restricted_sin r) - Real.sin (rval r)| ≤ |rval r| * (11 / 2 ^ 70 + 1 / 2 ^ 96) ∧
+    |rval (trigonometry.restricted_sin r) - Real.sin (rval r)| ≤ 19 / 2 ^ 73 := by
+  rcases hg with hlo | h0
+  · exact restricted_sin_real hv hw hlo hhi
+  · obtain ⟨h1, _, h3, _⟩ := restricted_zero hv h0
+    have e1 : rval (trigonometry.restricted_sin r) = 0 := by unfold rval; rw [h3]; simp
+    have e2 : rval r = 0 := by unfold rval; rw [val_zero_of_V h0]; simp
+    rw [e1, e2, Real.sin_zero]
+    refine ⟨h1, by simp, by norm_num⟩
+
+/-- `restricted_cos` on a good argument `|r| ≤ 0.786` -/
+theorem restricted_cos_good {r : TwoFloat} (hv : r.Valid) (hw : r.WF) (hg : Good r) (hhi : |val r| ≤ 393 / 500) :
+    (trigonometry.restricted_cos r).Valid ∧
+    |rval (trigonometry.restricted_cos r) - Real.cos (rval r)| ≤ 9 / 2 ^ 77 := by
+  rcases hg with hlo | h0
+  · exact restricted_cos_real hv hw hlo hhi
+  · obtain ⟨_, h2, _, h4⟩ := restricted_zero hv h0
+    have e1 : rval (trigonometry.restricted_cos r) = 1 := by unfold rval; rw [h4]; simp
+    have e2 : rval r = 0 := by unfold rval; rw [val_zero_of_V h0]; simp
+    rw [e1, e2, Real.cos_zero]
+    refine ⟨h2, by norm_num⟩
+
+/-- the test `|x| < FRAC_PI_4` of `quadrant` compares the exact values -/
+theorem cmp_small {x : TwoFloat} (hv : x.Valid) (hw : x.WF) :
+    ROrd.isLt (base.impl_PartialOrd_TwoFloat_for_TwoFloat.partial_cmp (TwoFloat.abs x) consts.FRAC_PI_4) = true
+      ↔ |val x| < val consts.FRAC_PI_4 := by
+  have hiv : TwoFloat.is_valid x = true := (C07.is_valid_iff x hw).2 hv
+  have hwa : (TwoFloat.abs x).WF := PF.abs_WF hw
+  have ha : (TwoFloat.abs x).Valid := by
+    rcases C06.abs_eq_or_neg x with h | h
+    · rw [h]; exact hv
+    · rw [h]; exact hv.neg hw.1
+  have hva : TwoFloat.is_valid (TwoFloat.abs x) = true := (C07.is_valid_iff _ hwa).2 ha
+  have h := C06.lt_exact hva ha C12.is_valid_FRAC_PI_4 C12.Valid_FRAC_PI_4
+  rw [C06.abs_exact hiv hv] at h
+  rw [show base.impl_PartialOrd_TwoFloat_for_TwoFloat.partial_cmp = C06.tcmp from rfl, h, abs_val]
+  unfold val
+  rw [div_lt_div_iff_of_pos_right (by positivity)]
+  exact_mod_cast Iff.rfl
+
+theorem P_real_err : |rval consts.FRAC_PI_2 - Real.pi / 2| ≤ 1 / 2 ^ 106 := by
+  have h := C12x.FRAC_PI_2_rel_err
+  have e : rval consts.FRAC_PI_2 = (consts.FRAC_PI_2.V : ℝ) / 2 ^ 1074 := by unfold rval val; push_cast; rfl
+  rw [e, abs_sub_comm]
+  refine le_trans h ?_
+  rw [abs_of_pos (by positivity : (0 : ℝ) < Real.pi / 2)]
+  have := Real.pi_le_four
+  rw [div_le_div_iff₀ (by positivity) (by positivity)]
+  have e2 : (2 : ℝ) ^ 107 = 2 * 2 ^ 106 := by norm_num
+  rw [e2]
+  nlinarith [show (0 : ℝ) < 2 ^ 106 by positivity]
+
+/-- **specification of `quadrant`** for valid `|x| ≤ 2^20`: the remainder is a valid pair with `|r| ≤ 0.786`,
+within `2^-81` of `x − k·π/2` (real `π`), and the quadrant is `k mod 4` -/
+theorem quadrant_spec {x : TwoFloat} (hv : x.Valid) (hw : x.WF) (hhi : |val x| ≤ 2 ^ 20) :
+    ∃ k : ℤ, (trigonometry.quadrant x).2 = (⟨k % 4⟩ : I8) ∧
+      (trigonometry.quadrant x).1.Valid ∧ (trigonometry.quadrant x).1.WF ∧
+      |val (trigonometry.quadrant x).1| ≤ 393 / 500 ∧
+      |rval (trigonometry.quadrant x).1 - (rval x - (k : ℝ) * (Real.pi / 2))| ≤ 1 / 2 ^ 81 := by
+  cases hb : ROrd.isLt (base.impl_PartialOrd_TwoFloat_for_TwoFloat.partial_cmp (TwoFloat.abs x) consts.FRAC_PI_4)
+  · -- reduction
+    have hge : val consts.FRAC_PI_4 ≤ |val x| := by
+      by_contra hlt
+      have := (cmp_small hv hw).2 (not_le.1 hlt)
+      rw [hb] at this; exact Bool.false_ne_true this
+    obtain ⟨k, hk, hq, hvr, hwr, her, hr⟩ := reduction hv hw hge hhi
+    refine ⟨k, ?_⟩
+    rw [quadrant_large hb hq hk]
+    refine ⟨rfl, hvr, hwr, hr, ?_⟩
+    set r := arithmetic.impl_Sub_rTwoFloat_for_rTwoFloat.sub x (arithmetic.impl_Mul_rTwoFloat_for_rTwoFloat.mul
+      (TwoFloat.round (arithmetic.impl_Div_rTwoFloat_for_rTwoFloat.div x consts.FRAC_PI_2)) consts.FRAC_PI_2)
+    have h1 : |rval r - (rval x - (k : ℝ) * rval consts.FRAC_PI_2)| ≤ 1 / 2 ^ 82 := by
+      have := (Rat.cast_le (K := ℝ)).2 her
+      unfold rval
+      push_cast at this ⊢
+      exact this
+    have h2 : |(k : ℝ) * (rval consts.FRAC_PI_2 - Real.pi / 2)| ≤ 1 / 2 ^ 86 := by
+      rw [abs_mul]
+      have hkr : |(k : ℝ)| ≤ 2 ^ 20 := by exact_mod_cast hk
+      have := mul_le_mul hkr P_real_err (abs_nonneg _) (by positivity)
+      refine le_trans this ?_
+      norm_num
+    have e : rval r - (rval x - (k : ℝ) * (Real.pi / 2))
+        = (rval r - (rval x - (k : ℝ) * rval consts.FRAC_PI_2)) - (k : ℝ) * (rval consts.FRAC_PI_2 - Real.pi / 2) := by
+      ring
+    rw [e]
+    refine le_trans (abs_sub _ _) ?_
+    have : (1 : ℝ) / 2 ^ 82 + 1 / 2 ^ 86 ≤ 1 / 2 ^ 81 := by norm_num
+    linarith
+  · -- no reduction
+    have hlt := (cmp_small hv hw).1 hb
+    rw [C16.quadrant_small x hb]
+    refine ⟨0, rfl, hv, hw, ?_, by simp⟩
+    have : val consts.FRAC_PI_4 ≤ 393 / 500 := by
+      have := P_facts.2.2.2.2.2.2
+      have h2 := P_facts.2.2.2.1
+      linarith
+    linarith
+
+theorem rval_neg (t : TwoFloat) : rval (arithmetic.impl_Neg_for_TwoFloat.neg t) = -rval t := by
+  have h : (arithmetic.impl_Neg_for_TwoFloat.neg t).V = -t.V := TwoFloat.V_neg t
+  unfold rval val
+  rw [h]; push_cast; ring
+
+theorem neg_valid {t : TwoFloat} (hv : t.Valid) (hw : t.WF) : (arithmetic.impl_Neg_for_TwoFloat.neg t).Valid :=
+  hv.neg hw.1
+
+/-- the two kinds of result: a restricted sine or a restricted cosine of the reduced argument, compared with
+the same function of the exactly reduced argument -/
+theorem via_sin {r : TwoFloat} (hv : r.Valid) (hw : r.WF) (hg : Good r) (hhi : |val r| ≤ 393 / 500) {ρ : ℝ}
+    (hρ : |rval r - ρ| ≤ 1 / 2 ^ 81) :
+    |rval (trigonometry.restricted_sin r) - Real.sin ρ| ≤ 1 / 2 ^ 68 := by
+  obtain ⟨_, _, h⟩ := restricted_sin_good hv hw hg hhi
+  have h2 := Real.abs_sin_sub_sin_le (rval r) ρ
+  have e : rval (trigonometry.restricted_sin r) - Real.sin ρ
+      = (rval (trigonometry.restricted_sin r) - Real.sin (rval r)) + (Real.sin (rval r) - Real.sin ρ) := by ring
+  rw [e]
+  refine le_trans (abs_add_le _ _) ?_
+  have : (19 : ℝ) / 2 ^ 73 + 1 / 2 ^ 81 ≤ 1 / 2 ^ 68 := by norm_num
+  linarith
+
+theorem via_cos {r : TwoFloat} (hv : r.Valid) (hw : r.WF) (hg : Good r) (hhi : |val r| ≤ 393 / 500) {ρ : ℝ}
+    (hρ : |rval r - ρ| ≤ 1 / 2 ^ 81) :
+    |rval (trigonometry.restricted_cos r) - Real.cos ρ| ≤ 1 / 2 ^ 68 := by
+  obtain ⟨_, h⟩ := restricted_cos_good hv hw hg hhi
+  have h2 := Real.abs_cos_sub_cos_le (rval r) ρ
+  have e : rval (trigonometry.restricted_cos r) - Real.cos ρ
+      = (rval (trigonometry.restricted_cos r) - Real.cos (rval r)) + (Real.cos (rval r) - Real.cos ρ) := by ring
+  rw [e]
+  refine le_trans (abs_add_le _ _) ?_
+  have : (9 : ℝ) / 2 ^ 77 + 1 / 2 ^ 81 ≤ 1 / 2 ^ 68 := by norm_num
+  linarith
+
+theorem abs_neg_sub_neg (a b : ℝ) : |-a - -b| = |a - b| := by
+  rw [← abs_neg]; congr 1; ring
+
+/-- **C16 (sin), absolute accuracy `2^-68`** for valid `|x| ≤ 2^20` whose reduced argument is `Good`
+(exactly zero or at least `2^-400` in magnitude).
+Target statement (property C16): the same without `Good`, with `2^-66`. -/
+theorem sin_abs_bound {x : TwoFloat} (hv : x.Valid) (hw : x.WF) (hhi : |val x| ≤ 2 ^ 20)
+    (hg : Good (trigonometry.quadrant x).1) :
+    (TwoFloat.sin x).Valid ∧ |rval (TwoFloat.sin x) - Real.sin (rval x)| ≤ 1 / 2 ^ 68 := by
+  have hiv : TwoFloat.is_valid x = true := (C07.is_valid_iff x hw).2 hv
+  obtain ⟨k, hq, hvr, hwr, hr, hρ⟩ := quadrant_spec hv hw hhi
+  have h0 := Int.emod_nonneg k (by norm_num : (4 : ℤ) ≠ 0)
+  have h4 := Int.emod_lt_of_pos k (by norm_num : (0 : ℤ) < 4)
+  rw [C16.sin_valid x hiv]
+  simp only [hq, i8_eq]
+  have ex : rval x = (rval x - (k : ℝ) * (Real.pi / 2)) + (k : ℝ) * (Real.pi / 2) := by ring
+  rw [ex, sin_add_quarter]
+  have e0 : ((0 : I8)).v = 0 := rfl
+  have e1 : ((1 : I8)).v = 1 := rfl
+  have e2 : ((2 : I8)).v = 2 := rfl
+  simp only [e0, e1, e2, decide_eq_true_eq]
+  have hS := (restricted_sin_good hvr hwr hg hr).1
+  have hC := (restricted_cos_good hvr hwr hg hr).1
+  by_cases c0 : k % 4 = 0
+  · simp only [c0, if_true]
+    exact ⟨hS, via_sin hvr hwr hg hr hρ⟩
+  · by_cases c1 : k % 4 = 1
+    · simp only [c1, if_true, one_ne_zero, if_false]
+      exact ⟨hC, via_cos hvr hwr hg hr hρ⟩
+    · by_cases c2 : k % 4 = 2
+      · have n20 : ¬ ((2 : ℤ) = 0) := by decide
+        have n21 : ¬ ((2 : ℤ) = 1) := by decide
+        simp only [c2, n20, n21, if_true, if_false]
+        refine ⟨neg_valid hS (PF.restricted_sin_WF _), ?_⟩
+        rw [rval_neg, abs_neg_sub_neg]
+        exact via_sin hvr hwr hg hr hρ
+      · simp only [c0, c1, c2, if_false]
+        refine ⟨neg_valid hC (PF.restricted_cos_WF _), ?_⟩
+        rw [rval_neg, abs_neg_sub_neg]
+        exact via_cos hvr hwr hg hr hρ
+
+/-- **C16 (cos), absolute accuracy `2^-68`** for valid `|x| ≤ 2^20` whose reduced argument is `Good`.
+Target statement (property C16): the same without `Good`, with `2^-66`. -/
+theorem cos_abs_bound {x : TwoFloat} (hv : x.Valid) (hw : x.WF) (hhi : |val x| ≤ 2 ^ 20)
+    (hg : Good (trigonometry.quadrant x).1) :
+    (TwoFloat.cos x).Valid ∧ |rval (TwoFloat.cos x) - Real.cos (rval x)| ≤ 1 / 2 ^ 68 := by
+  have hiv : TwoFloat.is_valid x = true := (C07.is_valid_iff x hw).2 hv
+  obtain ⟨k, hq, hvr, hwr, hr, hρ⟩ := quadrant_spec hv hw hhi
+  rw [C16.cos_valid x hiv]
+  simp only [hq, i8_eq]
+  have ex : rval x = (rval x - (k : ℝ) * (Real.pi / 2)) + (k : ℝ) * (Real.pi / 2) := by ring
+  rw [ex, cos_add_quarter]
+  have e0 : ((0 : I8)).v = 0 := rfl
+  have e1 : ((1 : I8)).v = 1 := rfl
+  have e2 : ((2 : I8)).v = 2 := rfl
+  simp only [e0, e1, e2, decide_eq_true_eq]
+  have hS := (restricted_sin_good hvr hwr hg hr).1
+  have hC := (restricted_cos_good hvr hwr hg hr).1
+  by_cases c0 : k % 4 = 0
+  · simp only [c0, if_true]
+    exact ⟨hC, via_cos hvr hwr hg hr hρ⟩
+  · by_cases c1 : k % 4 = 1
+    · simp only [c1, if_true, one_ne_zero, if_false]
+      refine ⟨neg_valid hS (PF.restricted_sin_WF _), ?_⟩
+      rw [rval_neg, abs_neg_sub_neg]
+      exact via_sin hvr hwr hg hr hρ
+    · by_cases c2 : k % 4 = 2
+      · have n20 : ¬ ((2 : ℤ) = 0) := by decide
+        have n21 : ¬ ((2 : ℤ) = 1) := by decide
+        simp only [c2, n20, n21, if_true, if_false]
+        refine ⟨neg_valid hC (PF.restricted_cos_WF _), ?_⟩
+        rw [rval_neg, abs_neg_sub_neg]
+        exact via_cos hvr hwr hg hr hρ
+      · simp only [c0, c1, c2, if_false]
+        exact ⟨hS, via_sin hvr hwr hg hr hρ⟩
+
+/-- **C16 (sin), small arguments**: for valid `|x| < FRAC_PI_4` (no reduction), `x` zero or `|x| ≥ 2^-400`:
+relative error at most `7·2^-69 < 2^-66.19` (the property asks for `2^-64`), absolute error at most `19·2^-73` -/
+theorem sin_small_bound {x : TwoFloat} (hv : x.Valid) (hw : x.WF) (hsm : |val x| < val consts.FRAC_PI_4)
+    (hg : Good x) :
+    (TwoFloat.sin x).Valid ∧
+    |rval (TwoFloat.sin x) - Real.sin (rval x)| ≤ 7 / 2 ^ 69 * |Real.sin (rval x)| ∧
+    |rval (TwoFloat.sin x) - Real.sin (rval x)| ≤ 19 / 2 ^ 73 := by
+  have hiv : TwoFloat.is_valid x = true := (C07.is_valid_iff x hw).2 hv
+  have hb := (cmp_small hv hw).2 hsm
+  rw [C16.sin_small x hiv hb]
+  have hhi : |val x| ≤ 393 / 500 := by
+    have := P_facts.2.2.2.2.2.2
+    have h2 := P_facts.2.2.2.1
+    linarith
+  obtain ⟨h1, h2, h3⟩ := restricted_sin_good hv hw hg hhi
+  refine ⟨h1, ?_, h3⟩
+  have hr : |rval x| ≤ 393 / 500 := by have := rval_le hhi; push_cast at this; exact this
+  have h4 := abs_sin_ge' hr
+  have h5 : |rval x| * (11 / 2 ^ 70 + 1 / 2 ^ 96) ≤ 7 / 2 ^ 69 * (|rval x| * (897 / 1000)) := by
+    have : (11 : ℝ) / 2 ^ 70 + 1 / 2 ^ 96 ≤ 7 / 2 ^ 69 * (897 / 1000) := by norm_num
+    have := mul_le_mul_of_nonneg_left this (abs_nonneg (rval x))
+    linarith
+  have h6 := mul_le_mul_of_nonneg_left h4 (by positivity : (0 : ℝ) ≤ 7 / 2 ^ 69)
+  linarith
+
+/-- the corresponding statement for `cos`: absolute error at most `9·2^-77 < 2^-73.8` -/
+theorem cos_small_bound {x : TwoFloat} (hv : x.Valid) (hw : x.WF) (hsm : |val x| < val consts.FRAC_PI_4)
+    (hg : Good x) :
+    (TwoFloat.cos x).Valid ∧ |rval (TwoFloat.cos x) - Real.cos (rval x)| ≤ 9 / 2 ^ 77 := by
+  have hiv : TwoFloat.is_valid x = true := (C07.is_valid_iff x hw).2 hv
+  have hb := (cmp_small hv hw).2 hsm
+  rw [C16.cos_small x hiv hb]
+  have hhi : |val x| ≤ 393 / 500 := by
+    have := P_facts.2.2.2.2.2.2
+    have h2 := P_facts.2.2.2.1
+    linarith
+  exact restricted_cos_good hv hw hg hhi
 
 end C16t
